@@ -16,19 +16,19 @@ func init() {
 		Rule: "trial = generated SAM (reference 4..60, 1..8 queries or 60..150 one-record queries, 1..3 primary/supplementary records per query overlapping or not and agreeing or conflicting, CIGARs over M I D N S H P = X incl. leading/trailing D, unmapped/secondary records interleaved) x --pad x --start/--end x --wrap, 3 seeded schedules with --threads in {1,2,3,4,8} and chunked SAM reads; oracle = executable reference model of the projection; non-trivial = at least one multi-record query or at least one D/N/I operator, and at least 2 queries; distinct = distinct (input, options)",
 		Gen:   genC01,
 		Check: checkC01,
-		Required: []string{"out_of_order_arrival", "multi_record_query", "conflicting_overlap", "junk_record_inside_block"},
+		Required: []string{"out_of_order_arrival", "multi_record_query", "conflicting_overlap", "junk_record_inside_block", "deletion_facing_base_in_overlap"},
 	})
 }
 
 func genC01(r *Rand, tier string, ord int) *Trial {
 	many := r.P(0.08)
-	sp := samSpec{L: r.Range(4, 60), Queries: r.Range(1, 8), MaxRecs: 3, Overlap: true, Conflict: 0.08, Ins: 0.06, Del: 0.06, Skip: 0.04, Junk: 0.15, Clip: 0.25}
+	sp := samSpec{L: r.Range(4, 60), Queries: r.Range(1, 8), MaxRecs: 3, Overlap: true, Conflict: 0.08, Ins: 0.06, Del: 0.06, Skip: 0.04, Junk: 0.15, Clip: 0.25, DelFlip: 0.06}
 	kind := "generated"
 	if many {
 		sp.L, sp.Queries, sp.MaxRecs, kind = r.Range(4, 12), r.Range(60, 150), 1, "generated-many"
 	}
 	if r.P(0.2) {
-		sp.Conflict = 0
+		sp.Conflict, sp.DelFlip = 0, 0
 	}
 	sc := genSam(r, sp)
 	o := Opts{Wrap: -1, Start: -1, End: -1, Threads: 1}
@@ -81,6 +81,40 @@ func checkC01(t *Trial, ctx *Ctx) *Failure {
 				}
 			}
 		}
+	}
+	// a position that one record deletes and another record of the same query aligns a base to
+	delVsBase := false
+	for _, g := range groups {
+		if len(g.recs) < 2 {
+			continue
+		}
+		L := len(sc.RefSeq)
+		seenDel, seenBase := make([]bool, L+1), make([]bool, L+1)
+		for _, rec := range g.recs {
+			p := rec.Pos
+			for _, op := range rec.Cigar {
+				switch op.Op {
+				case 'M', '=', 'X':
+					for k := 0; k < op.Len && p <= L; k, p = k+1, p+1 {
+						seenBase[p] = true
+					}
+				case 'D':
+					for k := 0; k < op.Len && p <= L; k, p = k+1, p+1 {
+						seenDel[p] = true
+					}
+				case 'N':
+					p += op.Len
+				}
+			}
+		}
+		for p := 1; p <= L; p++ {
+			if seenDel[p] && seenBase[p] {
+				delVsBase = true
+			}
+		}
+	}
+	if delVsBase {
+		ctx.Probe("deletion_facing_base_in_overlap", 1)
 	}
 	for i := 1; i+1 < len(sc.Recs); i++ {
 		if sc.Recs[i].Flag&(4|256) != 0 && sc.Recs[i-1].Name == sc.Recs[i+1].Name && sc.Recs[i-1].Flag&(4|256) == 0 && sc.Recs[i+1].Flag&(4|256) == 0 {
